@@ -245,6 +245,141 @@ Fixpoint repeat_list {A} (n : nat) (l : list A) : list A :=
 Definition big_list (start : N) (pattern : list N) (reps : N) : list N :=
   prefix_sums start (repeat_list (N.to_nat reps) pattern).
 
+(* ---- histories of pooled streamed decoders -------------------------------------- *)
+
+(* decodePostings / Next / close on several streamedDiffVarintPostings that take their decode
+   buffer from the shared decodedBufPool (pooling on). *)
+Inductive hev :=
+| HNew (l : nat)            (* decodePostings(encoding of list l): a new decoder *)
+| HNext (d : nat) (k : N)   (* up to k calls of Next on decoder d (stops at the first false) *)
+| HExhaust (d : nat)        (* Next on decoder d until it returns false *)
+| HClose (d : nat).         (* decoder d .close() *)
+
+(* What each decoder has returned: (values read, exhausted). Decoders do not influence each
+   other in the model: each reads its own list. *)
+Record hdec := mkHD { hd_list : nat; hd_read : N; hd_done : bool }.
+
+Definition list_len (lists : list (list N)) (l : nat) : N := N.of_nat (length (nth l lists [])).
+
+Fixpoint upd_nth {A} (k : nat) (f : A -> A) (l : list A) : list A :=
+  match l, k with
+  | [], _ => []
+  | x :: r, O => f x :: r
+  | x :: r, S k' => x :: upd_nth k' f r
+  end.
+
+Definition hout_step (lists : list (list N)) (ds : list hdec) (e : hev) : list hdec :=
+  match e with
+  | HNew l => ds ++ [mkHD l 0 false]
+  | HNext d k =>
+    upd_nth d (fun x => let len := list_len lists (hd_list x) in
+                        if hd_read x + k <=? len then mkHD (hd_list x) (hd_read x + k) (hd_done x)
+                        else mkHD (hd_list x) len true) ds
+  | HExhaust d => upd_nth d (fun x => mkHD (hd_list x) (list_len lists (hd_list x)) true) ds
+  | HClose _ => ds
+  end.
+
+Definition hout (lists : list (list N)) (evs : list hev) : list hdec := fold_left (hout_step lists) evs [].
+
+Fixpoint outs_match (ds : list hdec) (outs : list (N * bool * bool)) : bool :=
+  match ds, outs with
+  | [], [] => true
+  | x :: dr, o :: orr => (hd_read x =? fst (fst o)) && snd (fst o) && negb (snd o) && outs_match dr orr
+  | _, _ => false
+  end.
+
+(* the discipline of the callers: a decoder is closed at most once and not used after close *)
+Fixpoint hist_wf (closed : list bool) (evs : list hev) : bool :=
+  match evs with
+  | [] => true
+  | HNew _ :: r => hist_wf (closed ++ [false]) r
+  | HNext d _ :: r | HExhaust d :: r => negb (nth d closed true) && hist_wf closed r
+  | HClose d :: r => negb (nth d closed true) && hist_wf (upd_nth d (fun _ => true) closed) r
+  end.
+
+(* The buffer pool under such a history. close() is NOT idempotent in the code (it puts
+   &it.buf whenever it.buf != nil and never clears it: source fact closeAssigns = []), so
+   the discipline above is what keeps a buffer from being pooled twice. A decoder takes its
+   buffer when it reads its first compressed chunk: from the pool (any pooled buffer) or new.
+   [early = true] is a Next that calls close() itself when the input is exhausted. *)
+Record pdec := mkPD { pd_buf : option N; pd_live : bool (* may still use its buffer *); pd_closed : bool }.
+Record hpool := mkHP { hp_pool : list N; hp_decs : list pdec; hp_fresh : N }.
+Definition hp_init : hpool := mkHP [] [] 0.
+
+Fixpoint remove_first (x : N) (l : list N) : option (list N) :=
+  match l with
+  | [] => None
+  | y :: r => if y =? x then Some r
+              else match remove_first x r with Some r' => Some (y :: r') | None => None end
+  end.
+
+(* decoder d may acquire buffer [id] before reading (acq = Some id) or not (None) *)
+Definition hp_acquire (st : hpool) (d : nat) (acq : option N) : option hpool :=
+  match acq with
+  | None => Some st
+  | Some id =>
+    match nth_error (hp_decs st) d with
+    | Some (mkPD None true false) =>
+      match remove_first id (hp_pool st) with
+      | Some p' => Some (mkHP p' (upd_nth d (fun _ => mkPD (Some id) true false) (hp_decs st)) (hp_fresh st))
+      | None => if id =? hp_fresh st
+                then Some (mkHP (hp_pool st) (upd_nth d (fun _ => mkPD (Some id) true false) (hp_decs st)) (hp_fresh st + 1))
+                else None
+      end
+    | _ => None
+    end
+  end.
+
+Definition put_buf (b : option N) (pool : list N) : list N := match b with Some id => id :: pool | None => pool end.
+
+(* one event with the acquisition choice made for it; None = impossible / outside the discipline *)
+Definition hp_step (early : bool) (st : hpool) (e : hev) (acq : option N) : option hpool :=
+  match e with
+  | HNew _ => Some (mkHP (hp_pool st) (hp_decs st ++ [mkPD None true false]) (hp_fresh st))
+  | HNext d _ =>
+    match nth_error (hp_decs st) d with
+    | Some x => if pd_closed x then None else hp_acquire st d acq
+    | None => None
+    end
+  | HExhaust d =>
+    match nth_error (hp_decs st) d with
+    | Some x =>
+      if pd_closed x then None
+      else match hp_acquire st d acq with
+           | Some st1 =>
+             if early then
+               match nth_error (hp_decs st1) d with
+               | Some y => Some (mkHP (put_buf (pd_buf y) (hp_pool st1))
+                                      (upd_nth d (fun _ => mkPD (pd_buf y) false false) (hp_decs st1)) (hp_fresh st1))
+               | None => None
+               end
+             else Some st1
+           | None => None
+           end
+    | None => None
+    end
+  | HClose d =>
+    match nth_error (hp_decs st) d with
+    | Some x => if pd_closed x then None
+                else Some (mkHP (put_buf (pd_buf x) (hp_pool st)) (upd_nth d (fun _ => mkPD (pd_buf x) false true) (hp_decs st)) (hp_fresh st))
+    | None => None
+    end
+  end.
+
+Fixpoint hp_run (early : bool) (st : hpool) (evs : list (hev * option N)) : option hpool :=
+  match evs with
+  | [] => Some st
+  | (e, a) :: r => match hp_step early st e a with Some st' => hp_run early st' r | None => None end
+  end.
+
+(* buffers held by decoders that may still use them *)
+Fixpoint live_bufs (ds : list pdec) : list N :=
+  match ds with
+  | [] => []
+  | mkPD (Some id) true _ :: r => id :: live_bufs r
+  | _ :: r => live_bufs r
+  end.
+
 (* ---- cases -------------------------------------------------------------- *)
 
 Inductive case :=
@@ -266,7 +401,10 @@ Inductive case :=
    streamed encoding's data chunks; whether the Next-read of the real dvs / dss
    decoders equals l without error; a program and its three traces *)
 | CBig (start : N) (pattern : list N) (reps : N) (chunklens : list N) (dv_same sd_same : bool)
-       (prog : list op) (t_lp t_dv t_sd : list (bool * N)).
+       (prog : list op) (t_lp t_dv t_sd : list (bool * N))
+(* a history of pooled streamed decoders over the lists big_list start pattern reps; per decoder:
+   number of values read, whether they equal the beginning of its list, Err() != nil *)
+| CHist (lists : list (N * list N * N)) (evs : list hev) (outs : list (N * bool * bool)).
 
 Definition nlist_eqb := list_eqb N.eqb.
 Definition out_eqb (a b : list N * bool) : bool := nlist_eqb (fst a) (fst b) && Bool.eqb (snd a) (snd b).
@@ -313,6 +451,10 @@ Definition corr_ok (c : case) : bool :=
       Bool.eqb (option_eqb out_eqb (sd_decode (split_by lens bs)) (Some (l, false))) ssame &&
       seek_corr l bs lens prog tl td ts
     end
+  | CHist lists evs outs =>
+    let ls := map (fun t : N * list N * N => big_list (fst (fst t)) (snd (fst t)) (snd t)) lists in
+    forallb valid ls && hist_wf [] evs &&
+    outs_match (hout ls evs) outs
   end.
 
 (* The property on the implementation's own observables: a valid (sorted,
@@ -329,4 +471,6 @@ Definition pred_ok (c : case) : bool :=
     if valid l then seek_pred tl td ts else true
   | CBig start pat reps _ dsame ssame _ tl td ts =>
     if valid (big_list start pat reps) then dsame && ssame && seek_pred tl td ts else true
+  | CHist _ _ outs => forallb (fun o : N * bool * bool => snd (fst o) && negb (snd o)) outs
+    (* every decoded list equals its original, as far as it was read, without error *)
   end.
